@@ -103,7 +103,10 @@ def admissibleOp : Handler := fun j => do
   let B ← natList (← field j "data")
   let ops ← (← arrOf (← field j "ops")).mapM opOf
   let final := fs.run ops
-  pure (jObj [("admissible", jBool (admissible f B fs ops)),
+  let split := match j.getObjVal? "split" with
+    | .ok (Json.bool b) => b
+    | _ => false
+  pure (jObj [("admissible", jBool (admissible f B fs ops)), ("layout_ok", jBool (layoutOK split ops)),
               ("admissible_prefix", jBool (admissibleP f B fs ops)), ("is_key_path", jBool (isKeyPath f)),
               ("final_file", jOptBytes (final.files f))])
 
